@@ -4,6 +4,7 @@ package main
 // helpers to submit signed requests, execute batches and task lists.
 
 import (
+	"strconv"
 	"encoding/hex"
 	"os"
 	"errors"
@@ -50,6 +51,68 @@ func (t *HToken) TxEmitG(sender *types.Sender, address *types.Address, amount *b
 		return err
 	}
 	return t.EmissionAdd(amount)
+}
+
+// ---- gated bodies (C17): every use re-obtains the transaction context after a forced switch ----
+
+// GateHub lets a scheduler decide which parked invocation continues.
+type GateHub struct {
+	arrive  chan string
+	release map[string]chan struct{}
+}
+
+var gateHub *GateHub
+
+func gate(tag string) {
+	h := gateHub
+	if h == nil {
+		return
+	}
+	h.arrive <- tag
+	<-h.release[tag]
+}
+
+func (t *HToken) gatedBody(tag string, n string) (string, error) {
+	cnt, _ := strconv.Atoi(n)
+	var seen []string
+	for j := 0; j < cnt; j++ {
+		gate(tag)
+		stub := t.GetStub() // the body re-obtains its context
+		if stub == nil {
+			return "", errors.New("nil stub")
+		}
+		prev := ""
+		if j > 0 {
+			v, err := stub.GetState("c17_" + tag + "_" + strconv.Itoa(j-1))
+			if err != nil {
+				return "", err
+			}
+			prev = string(v)
+		}
+		seen = append(seen, prev)
+		if err := stub.PutState("c17_"+tag+"_"+strconv.Itoa(j), []byte(tag+"#"+strconv.Itoa(j)+"<"+prev)); err != nil {
+			return "", err
+		}
+	}
+	return tag + "[" + strings.Join(seen, ",") + "]", nil
+}
+
+// NBTxGp: immediate, no sender.  TxGated: batched.
+func (t *HToken) NBTxGp(tag string, n string) error {
+	_, err := t.gatedBody(tag, n)
+	return err
+}
+
+func (t *HToken) TxGated(_ *types.Sender, tag string, n string) (string, error) {
+	return t.gatedBody(tag, n)
+}
+
+// OnSwapDoneEvent is the listener swapDone calls with the context it installed.
+func (t *HToken) OnSwapDoneEvent(token string, owner *types.Address, amount *big.Int) {
+	if gateHub == nil {
+		return
+	}
+	_, _ = t.gatedBody("sw"+token, "2")
 }
 
 func (t *HToken) TxBurn(sender *types.Sender, amount *big.Int) error {
